@@ -76,7 +76,14 @@ Definition validate_gen (g : gen_in) (d : doc) : list string :=
                  then ["viol:apk-element-missing/id-collision"] else ["viol:apk-element-missing"]
           | _ => ["viol:apk-element-duplicated"]
           end
-      | _ => tag_if (negb (existsb (fun p => String.eqb (p_name p) (a_name a)) (d_pkgs d))) "viol:apk-name-missing"
+      | _ =>
+          (* the apk's own element may have been replaced by the imported one; some
+             element must still carry its name.  When it does not and the apk's own id
+             coincides with another apk's, that other apk's replacePackage (which
+             removes by id) or the de-duplication took it: the collision finding *)
+          if existsb (fun p => String.eqb (p_name p) (a_name a)) (d_pkgs d) then []
+          else if Nat.ltb 1 (count_true (fun b => String.eqb (apk_id b) (apk_id a)) (g_apks g))
+               then ["viol:apk-element-missing/id-collision"] else ["viol:apk-name-missing"]
       end) (g_apks g))) ++
   tag_if (negb (forallb (fun p => existsb (fun a => elem_of_b a p) (g_apks g)) own)) "viol:element-not-installed" ++
   (if String.eqb (g_image g) "" then []
